@@ -29,22 +29,51 @@ TRUST = "trusts go-statemachine's in-order delivery of notifications (used to ob
 
 prop("C02", "Terminal statuses are final", "exploration", "fsmx",
      "stateful property testing (rapid): before/after equality of all accessors, raw persisted bytes and publication count after every generated stimulus on a terminated channel; plus one complete enumeration of terminal status x event method x reopen",
-     [hx("TestC02_Fsmx", 800, 32000), hx("TestC02_FsmxTable", 2, 4, shards=1)],
+     [hx("TestC02_Fsmx", 1500, 32000), hx("TestC02_FsmxTable", 2, 4, shards=1), hx("TestC02_Mgrx", 1200, 32000)],
      ["side effects outside the channel record (a cancel message, a transport close on the id) are not part of the compared state"],
      "generated-stimulus search over terminated channels; the finite table (3 terminal statuses x 2 roles x 28 event methods x {same process, reopened}) is enumerated completely, everything else is sampled",
      TRUST, exhaustive_note="TestC02_FsmxTable enumerates terminal status x role x every public event method x {same process, after reopen} completely")
 
 prop("C03", "No success without both parties", "exploration", "fsmx",
      "model-based stateful property testing (rapid) against a two-facts lifecycle reference model plus per-event frame conditions",
-     [hx("TestC03_Fsmx", 1500, 48000)],
+     [hx("TestC03_Fsmx", 3000, 48000), hx("TestC03_Mgrx", 1500, 32000)],
      ["histories are role consistent (Open only as first event; initiator and responder alphabets kept apart), as produced by the manager",
       "lifecycle events are not raced against the asynchronous CleanupComplete; every ending is settled before the next event"],
      "generated-history search: every applied event is checked against a reference model written from the statement (two completion facts and the responder's last word) and against frame conditions; not exhaustive",
      TRUST)
 
+prop("C04", "Only validated requests move data", "exploration", "mgrx",
+     "property testing (rapid) of a real manager over recording doubles: non-interference oracle - acceptance effects imply an accepting validator call in the call log; reply content equals the scripted validator result",
+     [hx("TestC04_MgrxNew", 1500, 32000), hx("TestC04_MgrxRestart", 1200, 32000), hx("TestC04_MgrxUpdate", 1200, 32000)],
+     ["a validator *error* on restart must produce a refusing reply and no acceptance effect, but need not fail the channel (only a rejection does; DESIGN 6.2)"],
+     "generated requests x registry contents x validator outcome vectors x entry paths x later updates x process restart; sampled",
+     TRUST)
+
+prop("C05", "Only the counterparty, in its proper role", "exploration", "mgrx",
+     "property testing (rapid): datastore snapshot diff and transport call log restricted to pre-existing channel ids after every generated message; single-field mutations of valid restart requests",
+     [hx("TestC05_Mgrx", 1200, 32000), hx("TestC05_MgrxRestart", 1500, 32000)],
+     ["a refused message may cause transport calls on the non-existing channel id derived from its sender (DESIGN 6.5); 'untouched' is asserted for ids that existed before the message"],
+     "generated open-channel sets x senders x message kinds x colliding ids x paths; sampled",
+     TRUST)
+
+prop("C10", "Restart resumes the same transfer", "exploration", "mgrx",
+     "property testing (rapid): before/after identity diff of the channel record, content of the re-issued request / transport open, validator call order; crash-restart in cleanup statuses",
+     [hx("TestC10_MgrxLocal", 1500, 32000), hx("TestC10_MgrxCleanup", 600, 8000), hx("TestC04_MgrxRestart", 800, 8000), hx("TestC05_MgrxRestart", 800, 8000)],
+     ["'a rejected restart fails the channel' is applied to the incoming restart request path; a responder whose own validator rejects a locally requested restart must send nothing and return an error (DESIGN 6.3)"],
+     "generated roles x progress points x statuses x process restart x validator outcomes; sampled",
+     TRUST)
+
+prop("C17", "Subscribers see every applied event once, in order", "exploration", "mgrx",
+     "stateful property testing (rapid): subscriber call logs compared with the datastore write log (independent DAG-CBOR reader) and with a witness subscriber restricted to fenced subscription windows",
+     [hx("TestC17_Mgrx", 1000, 24000)],
+     ["every applied event changes the persisted bytes (stage-log timestamp), so the write log has exactly one Put per applied event - checked, not assumed, by the count comparison",
+      "'released when the channel terminates' is observable only as 'no call after the terminal event'"],
+     "generated multi-channel histories x subscriber sets x (un)subscribe points; sampled",
+     TRUST)
+
 prop("C06", "Durable and prefix-consistent across crashes", "fault_enumeration", "fsmx",
      "stateful property testing (rapid) with crash-point enumeration: every datastore write boundary of each generated history is materialised and reopened, decoded state compared with the publication-log snapshot that was current",
-     [hx("TestC06_Fsmx", 150, 4000)],
+     [hx("TestC06_Fsmx", 300, 4000)],
      ["crash model: the process stops between two datastore writes; a Put / Batch.Commit is atomic (torn writes inside the datastore are out of scope)",
       "messages and type identifiers are kept <= 4096 bytes (the generated codec caps strings at 8192)"],
      "within each generated history the crash points are enumerated (thorough: all write boundaries; quick: all when <= 40, else 40 including first and last); histories themselves are sampled",
@@ -52,21 +81,21 @@ prop("C06", "Durable and prefix-consistent across crashes", "fault_enumeration",
 
 prop("C07", "Transfer accounting counts every block position once", "exploration", "fsmx",
      "model-based property testing (rapid): run-structured block-report sequences with replays, duplicates and reopen against a reference accumulator; arbitrary triples for monotonicity",
-     [hx("TestC07_Fsmx", 800, 32000), hx("TestC07_FsmxArbitrary", 600, 16000)],
+     [hx("TestC07_Fsmx", 1500, 32000), hx("TestC07_FsmxArbitrary", 1000, 16000)],
      ["equality with the sum over distinct positions is asserted for run-structured input in a transferring status only (DESIGN 6.4)"],
      "generated report sequences against a reference accumulator; sampled, not exhaustive",
      TRUST)
 
 prop("C08", "Data limits stop the transfer at the limit", "exploration", "fsmx",
      "model-based property testing (rapid): boundary-biased limit schedules against the reference rule 'pause iff limit != 0, the report advanced the total and total >= limit'",
-     [hx("TestC08_Fsmx", 800, 32000)],
+     [hx("TestC08_Fsmx", 1500, 32000), hx("TestC08_Mgrx", 1500, 32000)],
      ["'no further payload progresses while paused' is asserted on the control flow (pause signal / pause call / nothing resumed), not on bytes in flight inside graphsync"],
      "generated limit schedules with boundary bias (total == limit reached in ~1/6 of the cases); sampled",
      TRUST)
 
 prop("C09", "Cleanup exactly once per ending; closing never hangs", "exploration", "fsmx",
      "stateful property testing (rapid) with racing injections: cleanup-call counter per ending against the publication log, settle-without-input watchdog, crash-restart in cleanup statuses",
-     [hx("TestC09_Fsmx", 500, 16000)],
+     [hx("TestC09_Fsmx", 1000, 16000), hx("TestC09_Mgrx", 1000, 16000)],
      ["exactly-once is asserted when no event is applied during the cleanup window; with k racing events the bound is 1..1+k (DESIGN 6.1)",
       "bounded liveness: 'settles' / 'returns' use a 20 s watchdog against microsecond latencies"],
      "generated endings from every reachable status with and without racing events; schedules of the race are sampled by the Go scheduler",
@@ -74,19 +103,20 @@ prop("C09", "Cleanup exactly once per ending; closing never hangs", "exploration
 
 prop("C11", "Pause state per party", "exploration", "fsmx",
      "model-based stateful property testing (rapid) against a two-flag reference model updated by applied events only; ignored actions must leave accessors and bytes identical",
-     [hx("TestC11_Fsmx", 1500, 48000)],
+     [hx("TestC11_Fsmx", 2500, 48000), hx("TestC11_Mgrx", 1500, 32000)],
      [],
      "generated interleavings of the four pause/resume actions and limit pauses in every reachable status, both roles; sampled",
      TRUST)
 
 prop("C19", "Channel state views are total and self-consistent", "exploration", "fsmx",
      "property testing (rapid): total accessor probe under recover and cross-view consistency on every state the explorers obtain, append-only log checks",
-     [hx("TestC19_Fsmx", 800, 32000)],
+     [hx("TestC19_Fsmx", 1500, 32000), hx("TestC19_Mgrx", 1000, 32000), hx("TestC04_MgrxUpdate", 600, 8000), hx("TestC04_MgrxRestart", 600, 8000)],
      [],
      "every state produced by generated histories is probed; reachable states are sampled",
      TRUST)
 
 ENGINES = [
+    {"name": "mgrx", "path": "harness/hx (mgrx_*_test.go, rig_mgr_test.go)", "serves_properties": ["C02", "C03", "C04", "C05", "C08", "C09", "C10", "C11", "C17", "C19"], "kind_free_text": "rapid property tests driving a real manager (impl.NewDataTransfer) over a recording datastore, transport, network and scripted validators"},
     {"name": "fsmx", "path": "harness/hx (fsmx_*_test.go)", "serves_properties": ["C02", "C03", "C06", "C07", "C08", "C09", "C11", "C19"], "kind_free_text": "rapid state-machine tests driving channels.Channels over a recording datastore and environment"},
 ]
 
